@@ -258,15 +258,22 @@ CmpScalar(op, a, b) ==
        ELSE (IF op = "=" THEN ToStr(a) = ToStr(b) ELSE ToStr(a) # ToStr(b))
   ELSE NumRel(op, ToNum(a), ToNum(b))
 \* with node-sets: existential over the string-values of the nodes
+\* a node-set against a boolean: through boolean(node-set) (XPath 1.0 section 3.4, for all six operators)
 Cmp(op, a, b) ==
-  IF IsSet(a) /\ IsSet(b)
+  IF IsSet(a) /\ b.t = "b" THEN CmpScalar(op, VB(ToBool(a)), b)
+  ELSE IF IsSet(b) /\ a.t = "b" THEN CmpScalar(op, a, VB(ToBool(b)))
+  ELSE IF IsSet(a) /\ IsSet(b)
   THEN \E i \in 1..Len(Members(a)) : \E k \in 1..Len(Members(b)) : CmpScalar(op, VS(Members(a)[i]), VS(Members(b)[k]))
   ELSE IF IsSet(a) THEN \E i \in 1..Len(Members(a)) : CmpScalar(op, VS(Members(a)[i]), b)
   ELSE IF IsSet(b) THEN \E k \in 1..Len(Members(b)) : CmpScalar(op, a, VS(Members(b)[k]))
   ELSE CmpScalar(op, a, b)
-\* a node-set compared with a boolean is decided through boolean(node-set) in XPath 1.0
-\* while the property text says "false in every comparison": not judged.
-CmpJudged(op, a, b) == ~((IsSet(a) /\ b.t = "b") \/ (IsSet(b) /\ a.t = "b"))
+\* a node-set compared with a boolean is decided through boolean(node-set) in XPath 1.0, while the property text
+\* says an absent node is "false in every comparison" and a leaf-list "compares existentially" (member by member):
+\* judged where all readings agree, i.e. for a non-empty set none of whose members is the empty string
+\* (member-wise boolean(string) is then true for every member, as boolean(node-set) is).
+SetVsBoolJudged(v) == Members(v) # << >> /\ \A i \in 1..Len(Members(v)) : Members(v)[i] # ""
+CmpJudged(op, a, b) == /\ (IsSet(a) /\ b.t = "b") => SetVsBoolJudged(a)
+                       /\ (IsSet(b) /\ a.t = "b") => SetVsBoolJudged(b)
 CmpUsesNum(op, a, b) == op \notin {"=", "!="} \/ a.t = "n" \/ b.t = "n"
 CmpNumsJudged(op, a, b) ==
   LET na == IF IsSet(a) THEN [i \in 1..Len(Members(a)) |-> ToNumS(Members(a)[i])] ELSE <<ToNum(a)>>
@@ -286,6 +293,8 @@ Bin(op, a, b) ==
     [] op = "div" -> WithJ(VN(Div(ToNum(a), ToNum(b))), j)
     [] op = "mod" -> WithJ(VN(Mod(ToNum(a), ToNum(b))), j)
     [] op \in CmpOps -> WithJ(VB(Cmp(op, a, b)), j /\ CmpJudged(op, a, b) /\ CmpNumsJudged(op, a, b))
+    [] op = "|" -> IF a.t = "abs" /\ b.t = "abs" THEN WithJ(VAbsent, j)      \* union: only empty node-sets exist as node-sets here;
+                   ELSE WithJ(VAbsent, FALSE)                                 \* anything else is a run error (XPathExec), not judged as a value
     [] op = "and" -> WithJ(VB(ToBool(a) /\ ToBool(b)), j)
     [] op = "or" -> WithJ(VB(ToBool(a) \/ ToBool(b)), j)
 NegV(a) == WithJ(VN(Neg(ToNum(a))), a.j)
